@@ -93,10 +93,9 @@ def run(ctx: Ctx):
     ok = False
     if isinstance(first, ast.Try):
         # the position found by the lookup is a local of the try body: bound as the target of the lookup, returned as a 1-tuple after it
-        for i, b in enumerate(first.body):
-            e = SA.m(f"idx = self.fields[0].domain.index({sel_p})", b)
-            if e is not None and any(SA.m("return (idx,)", b2, e) is not None for b2 in first.body[i + 1:]):
-                ok = True
+        # the position is returned as a 1-tuple, through a local of the try body or directly
+        ok = SA.solve([f"idx = self.fields[0].domain.index({sel_p})", "return (idx,)"], within=first) is not None \
+            and all(any(x is y for b in first.body for y in ast.walk(b)) for x in [n for n, _ in SA.find(f"self.fields[0].domain.index({sel_p})")][:1])
     ctx.check(ok, "ORD-1", ai, first, "an element of the outermost domain is resolved before any other interpretation of the selector", "",
               "the outermost-domain lookup is not the first step of selector resolution: a key that is itself a tuple/list element of the domain can be "
               "interpreted as a multi-field selector")
